@@ -33,6 +33,7 @@ from concurrent.futures import ThreadPoolExecutor
 from vf import build, tlc, trace
 from vf import run as hrun
 from vf.core import InfraError
+from checks.deferred import Deferred
 
 LEVEL = "model_checking"
 READY = True
@@ -385,7 +386,7 @@ def _cfg(rd, name, drop, save, prop_off, impl_off, reuse="off", xprop=False):
                          constraints=["Diag"], postcondition="TraceAccepted", deadlock=False)
 
 
-def _run_part(exe, d, part, seed):
+def _run_part(exe, d, part, seed, deferred=None):
     """run one harness process over its histories; when it dies inside the library, append the Crash event for the stage
     recorded in <d>/progress and restart after that history"""
     hf, out = os.path.join(d, "hist.txt"), os.path.join(d, "out.ndjson")
@@ -397,14 +398,24 @@ def _run_part(exe, d, part, seed):
         h = hrun.run(exe, [out, d, seed, hf, start], timeout=1500, env=HENV)
         if h.rc == 0:
             break
-        if h.timed_out or h.rc == 2:
+        if h.rc == 2 or (h.timed_out and deferred is None):
             raise InfraError("c16 harness failed (rc=%d): %s" % (h.rc, h.err[-1500:]))
+        if h.timed_out:
+            # a changed library may hang: not a verdict; what this process recorded is still judged, its remaining histories are not run
+            deferred.add("c16 harness timed out (progress record: %s)" % _progress_text(d))
+            break
         try:
             idx, step, stage = open(os.path.join(d, "progress")).read().split()[:3]
             idx, step = int(idx), int(step)
         except (OSError, ValueError):
             raise InfraError("c16 harness died (rc=%d) without progress record: %s" % (h.rc, h.err[-1500:]))
         ops = part[idx][1].split()
+        if deferred is not None and idx >= start and stage == "fit" and h.rc != 97:
+            # the process died while FITTING the model it was going to write (PCA / PLS / CPCA of the library, not the code under test: no verdict of C16):
+            # remembered, the other histories are still run and judged
+            deferred.add("c16 harness died while fitting the model of history line %d step %d (rc=%d %s), outside Write*/Read*: %s" % (idx, step, h.rc, h.san or "", h.err[-600:]))
+            start = idx + 1
+            continue
         if idx < start or stage not in ("write", "read", "reread", "compare", "predict") or not 1 <= step <= len(ops) or h.rc == 97:
             raise InfraError("c16 harness died outside the code under test (line %d step %d stage %s rc=%d): %s" % (idx, step, stage, h.rc, h.err[-1500:]))
         o = ops[step - 1].split(":")
@@ -416,6 +427,13 @@ def _run_part(exe, d, part, seed):
     return hrun.read_ndjson(out), errs
 
 
+def _progress_text(d):
+    try:
+        return " ".join(open(os.path.join(d, "progress")).read().split()[:3])
+    except OSError:
+        return "none"
+
+
 def execute(ctx, exe, rd, hist, seed):
     """hist: list of (id, opstring).  Runs the harness in NPROC parallel parts; returns the concatenated events."""
     parts = [p for p in (hist[i::NPROC] for i in range(NPROC)) if p]
@@ -425,7 +443,7 @@ def execute(ctx, exe, rd, hist, seed):
         os.makedirs(d, exist_ok=True)
         dirs.append(d)
     with ThreadPoolExecutor(NPROC) as ex:
-        res = list(ex.map(lambda a: _run_part(exe, a[0], a[1], seed), zip(dirs, parts)))
+        res = list(ex.map(lambda a: _run_part(exe, a[0], a[1], seed, getattr(ctx, "_deferred", None)), zip(dirs, parts)))
     events, stderr = [], []
     for ev, errs in res:
         events += ev
@@ -524,7 +542,10 @@ def conform(ctx, hist, seed, label, selftest=False, catalogue=None, count_classe
         nreads = sum(1 for e in events if e["e"] == "Read")
         ntab = sum(1 for e in events if e["e"] == "Tables")
         if ntab == 0 or sum(1 for e in events if e["e"] == "Write") == 0:
-            raise InfraError("c16 harness emitted no Write/Tables events")
+            # (a tree on which every Write* dies leaves Reset / Crash events only: they are still judged by TLC below)
+            if getattr(ctx, "_deferred", None) is None or not any(e["e"] == "Crash" for e in events):
+                raise InfraError("c16 harness emitted no Write/Tables events")
+            ctx._deferred.add("c16 harness emitted no Write/Tables events")
         ctx.note("%s: %d histories executed, %d events (%d Reads, %d Tables)" % (label, len(hist), len(events), nreads, ntab))
         lab, stats = label_events(events)
         ctx.steps["%s_observed" % label] = stats
@@ -603,7 +624,7 @@ def conform(ctx, hist, seed, label, selftest=False, catalogue=None, count_classe
             list(ex.map(check, range(len(chunks))))
         if variant is not None:
             ctx.traces(len(hist))
-        if selftest:
+        if selftest and not getattr(ctx, "_deferred", None):
             binding_selftests(ctx, rd, events, lab, variant, cfg_prop)
         return variant, events
     finally:
@@ -809,6 +830,7 @@ def run(ctx):
         "ASan/UBSan build: a sanitizer report or abort inside Write*/Read* is a violation",
         "the Impl-only validation (variant inference) and the Prop-only validation are run separately on chunks of whole histories; the layers are independent conjuncts of every trace action",
     ]
+    ctx._deferred = Deferred(ctx)
     jobs = mc_jobs(ctx) + gen_jobs(ctx, 200 if ctx.quick else 2500)      # (M) and (GEN) are independent TLC work: one pool
     rs = _tlc_many(jobs)
     for label, _, _, _ in jobs:
@@ -840,7 +862,9 @@ def run(ctx):
     if all(s["fields_compared"] == 0 for k, s in ctx.steps.items() if k.endswith("_observed")) and not ctx.violations:
         raise InfraError("no field was ever compared: the conformance step is vacuous")
     variant_agreement(ctx, variant, verdict)
-    extra_reuse(ctx, reuse, ctx.seed, variant)
+    if not ctx._deferred:
+        extra_reuse(ctx, reuse, ctx.seed, variant)
+    ctx._deferred.settle()
 
 
 def replay(ctx, body):
